@@ -31,6 +31,18 @@ type Tag struct {
 	Sig   uint32 `json:"sig"`
 	Len   int    `json:"len"`   // payload length for filler tags
 	Share int    `json:"share"` // -1 own block
+	// Kind of filler content: "" arbitrary bytes, "desc" a well-formed textDescription with a DIFFERENT text,
+	// "mluc" a well-formed multiLocalizedUnicode (with an 'en' record) with a DIFFERENT text, "text" textType
+	Kind string `json:"kind,omitempty"`
+}
+
+// signatures of tags that occur in real profiles (ICC.1 tag list plus common private ones)
+var knownSigs = []string{"A2B0", "A2B1", "A2B2", "B2A0", "B2A1", "B2A2", "bXYZ", "bTRC", "bkpt", "calt", "chad", "chrm", "clro", "clrt", "cprt", "crdi",
+	"dmnd", "dmdd", "dscm", "gamt", "gXYZ", "gTRC", "kTRC", "lumi", "meas", "ncl2", "pre0", "pre1", "pre2", "pseq", "psid", "resp", "rXYZ", "rTRC",
+	"scrd", "scrn", "targ", "tech", "vued", "view", "wtpt", "vcgt", "mmod", "ndin", "aarg", "aagg", "aabg", "cicp", "meta", "desc"}
+
+func sigOf(s string) uint32 {
+	return uint32(s[0])<<24 | uint32(s[1])<<16 | uint32(s[2])<<8 | uint32(s[3])
 }
 
 type Case struct {
@@ -77,10 +89,20 @@ func (c Case) build() (profile []byte, descData []byte) {
 			}
 			descData = d
 		} else {
-			d = make([]byte, t.Len)
-			copy(d, "data\x00\x00\x00\x00")
-			for k := 8; k < len(d); k++ {
-				d[k] = byte(k*31 + i)
+			switch t.Kind {
+			case "desc":
+				d = build.TextDesc(fmt.Sprintf("NOT the description (tag %d)", i))
+			case "mluc":
+				d = build.Mluc([]build.MlucRec{{Lang: [2]byte{'e', 'n'}, Country: [2]byte{'U', 'S'}, Text: fmt.Sprintf("not the description %d", i)},
+					{Lang: [2]byte{'d', 'e'}, Country: [2]byte{'D', 'E'}, Text: "nicht die Beschreibung"}}, nil, nil, 0)
+			case "text":
+				d = append([]byte("text\x00\x00\x00\x00"), []byte(fmt.Sprintf("Copyright tag %d\x00", i))...)
+			default:
+				d = make([]byte, t.Len)
+				copy(d, "data\x00\x00\x00\x00")
+				for k := 8; k < len(d); k++ {
+					d[k] = byte(k*31 + i)
+				}
 			}
 		}
 		p.Tags = append(p.Tags, build.ICCTag{Sig: t.Sig, Data: d, Share: t.Share})
@@ -340,11 +362,15 @@ func gen(rt *rapid.T) Case {
 			continue
 		}
 		sig := uint32(0x41000000) + uint32(rapid.IntRange(0, 1<<20).Draw(rt, "sig"))
+		if rapid.IntRange(0, 2).Draw(rt, "knownsig") > 0 {
+			sig = sigOf(rapid.SampledFrom(knownSigs).Draw(rt, "known"))
+		}
 		for used[sig] {
-			sig++
+			sig = uint32(0x41000000) + uint32(rapid.IntRange(0, 1<<20).Draw(rt, "sig2"))
 		}
 		used[sig] = true
-		t := Tag{Sig: sig, Len: rapid.IntRange(8, 40).Draw(rt, "taglen"), Share: -1}
+		t := Tag{Sig: sig, Len: rapid.IntRange(8, 40).Draw(rt, "taglen"), Share: -1,
+			Kind: rapid.SampledFrom([]string{"", "", "desc", "mluc", "text"}).Draw(rt, "fillerkind")}
 		if i > 0 && rapid.IntRange(0, 4).Draw(rt, "tagshare") == 0 {
 			j := rapid.IntRange(0, i-1).Draw(rt, "sharewith")
 			if c.Tags[j].Share >= 0 {
